@@ -208,6 +208,14 @@ def apply_op(o, x, aux, aux2, mask):
         y = x.clone()
         y.copy_(aux)
         return y
+    if op == "to_device":
+        return x.to(device=torch.device("cpu"), copy=True)
+    if op == "matmul":
+        return x @ aux
+    if op == "bmm":
+        return torch.bmm(x, aux)
+    if op == "linear":
+        return F.linear(x, aux)
     raise KeyError(op)
 
 
@@ -221,7 +229,26 @@ def make_aux(o, cur, twin, salt):
     if kind is None:
         return None, None, None, None
     shape = list(twin.shape)
+    if o["op"] == "matmul":
+        shape = [shape[-1], 2]
+    elif o["op"] == "bmm":
+        shape = [shape[0], shape[-1], 2]
+    elif o["op"] == "linear":
+        shape = [2, shape[-1]]
     dtype = twin.dtype if twin.dtype.is_floating_point else torch.float32
+    if kind in ("qw8_last", "qw8_tensor"):
+        wf = make_tensor("Plain", "none", "none", shape, dtype, salt=salt + 1)[1]
+        if kind == "qw8_tensor":
+            a = quantize_activation(wf, qtypes["qint8"], torch.tensor(2.0 ** -5, dtype=dtype))
+        else:
+            sc = torch.tensor([2.0 ** (-5 - (i % 2)) for i in range(shape[-1])], dtype=dtype).reshape(1, shape[-1])
+            a = SymmetricQuantizer.apply(wf, qtypes["qint8"], -1, sc) if shape[-1] > 1 else quantize_activation(wf, qtypes["qint8"], sc.reshape(()))
+        return a, a.dequantize().clone(), None, None
+    if kind in ("qw8", "qw4"):
+        # a quantized weight as quantize_weight builds it (per output row)
+        wf = make_tensor("Plain", "none", "none", shape, dtype, salt=salt + 1)[1]
+        a = quantize_weight(wf, qtypes["qint8" if kind == "qw8" else "qint4"], 0)
+        return a, a.dequantize().clone(), None, None
     curq = isinstance(cur, QBytesTensor) and cur.axis is None
     qt = cur.qtype.name if isinstance(cur, QBytesTensor) else "qint8"
     if qt == "qfloat8":
@@ -321,6 +348,15 @@ def run_program(sk, dtype_name="float32"):
             ev["twin"] = bigs(tv, E)
             ev["scale"] = bigs(extra, E)
             ev["scale_before"] = bigs(prev_scale, E)
+            if o["op"] in ("matmul", "bmm", "linear"):
+                ev["kdim"] = int(twin.shape[-1])
+                ar = to_fractions(apply_op(o, twin.abs().double(), faux.abs().double(), None, None))
+                E2 = min([E] + [low_exp(v) for v in ar if not isinstance(v, str) and v != 0])
+                if E2 != E:      # one common exponent for every logged number of the event
+                    E = E2
+                    ev["E"] = E
+                    ev["dq"], ev["twin"], ev["scale"], ev["scale_before"] = bigs(dv, E), bigs(tv, E), bigs(extra, E), bigs(prev_scale, E)
+                ev["absref"] = bigs(ar, E)
             fmt_in = FMT_NAME.get(twin.dtype, "float32")
             fmt_out = ev["twin_dtype"] if ev["twin_dtype"] in FMT else fmt_in
             ev["fmt_in"], ev["fmt_out"] = fmt_in, fmt_out
